@@ -8,21 +8,6 @@ use crate::statics::*;
 use crate::util::*;
 use std::rc::Rc;
 
-/// all singleton queries
-pub const SINGLES: u8 = 0;
-/// all ordered pairs (with repetition)
-pub const PAIRS: u8 = 1;
-/// no query argument (SE)
-pub const NOQ: u8 = 2;
-/// one query: the argument lists [0], [1], [2], [0,1], [1,0], [0,0], [0,2]
-pub const Q0: u8 = 10;
-pub const Q1: u8 = 11;
-pub const Q2: u8 = 12;
-pub const Q01: u8 = 13;
-pub const Q10: u8 = 14;
-pub const Q00: u8 = 15;
-pub const Q02: u8 = 16;
-
 pub fn case<const N: usize, const CODE: u32, const WORDS: usize>(
     sp: &Spec,
     sem: Sem,
@@ -31,135 +16,272 @@ pub fn case<const N: usize, const CODE: u32, const WORDS: usize>(
     pres: Pres,
     cert: bool,
     checks: Checks,
-    qs: u8,
+    queries: &[&[usize]],
     max_fault: u32,
-    fork: bool,
 ) {
     let g = graph_from_code::<N>(CODE);
     let af = build::<N>(&g, pres);
-    let run = |q: &[usize]| {
+    for q in queries.iter() {
         let sh = Rc::new(Shared::default());
-        sh.fork_models.set(fork);
         if max_fault > 0 {
             sh.fail_at.set(1 + nd::below(max_fault));
         }
         let o = query::<N, WORDS>(&af, sp, pres, sem, enc, kind, q, cert, checks, &sh);
         std::mem::forget(o);
-    };
-    match qs {
-        NOQ => run(&[]),
-        Q0 => run(&[0]),
-        Q1 => run(&[1]),
-        Q2 => run(&[2]),
-        Q01 => run(&[0, 1]),
-        Q10 => run(&[1, 0]),
-        Q00 => run(&[0, 0]),
-        Q02 => run(&[0, 2]),
-        SINGLES => {
-            for a in 0..N {
-                run(&[a]);
-            }
-        }
-        _ => {
-            for a in 0..N {
-                for b in 0..N {
-                    run(&[a, b]);
-                }
-            }
-        }
     }
     std::mem::forget(af);
 }
 
 macro_rules! static_harness {
     ($name:ident, n=$n:literal, words=$words:literal, unwind=$unwind:literal, $sem:expr, $enc:expr, $kind:expr, $pres:expr,
-     cert=$cert:expr, $checks:expr, qs=$qs:expr, fault=$fault:expr, fork=$fork:expr, codes=[$($code:literal),*]) => {
+     cert=$cert:expr, $checks:expr, qs=[$([$($q:literal),*]),*], fault=$fault:expr, codes=[$code:literal]) => {
         #[cfg_attr(kani, kani::proof)]
         #[cfg_attr(kani, kani::stub(alloc::fmt::format, crate::util::fmt_stub))]
         #[cfg_attr(kani, kani::stub(std::backtrace::Backtrace::capture, crate::util::bt_stub))]
         #[cfg_attr(kani, kani::stub(<anyhow::Error as std::ops::Drop>::drop, crate::util::noop_err_drop))]
         #[cfg_attr(kani, kani::unwind($unwind))]
         pub fn $name() {
-            $(
-                {
-                    let sp = const { spec_of::<$n>($sem, $code) };
-                    case::<$n, $code, $words>(&sp, $sem, $enc, $kind, $pres, $cert, $checks, $qs, $fault, $fork);
-                }
-            )*
+            let sp = const { spec_of::<$n>($sem, $code) };
+            case::<$n, $code, $words>(&sp, $sem, $enc, $kind, $pres, $cert, $checks, &[$(&[$($q),*][..]),*], $fault);
         }
     };
 }
 
-// Graph codes for N = 2 (bit i*2+j = attack i->j):  0: no attack (two components)   2: a->b   6: a<->b   8: b->b, a isolated
-//   9: a->a, b->b   10: a->b, b->b   14: a<->b, b->b   7: a->a, a<->b
-// N = 3 (bit i*3+j):  8: b->a, c isolated   42: a<->b, b->c   84: a->b->c->a (odd cycle)   10: a->b, b->a ... see evidence samples
-
-// ---- C01: single-extension answers
-static_harness!(c01_q_st_se_g6, n=2, words=1, unwind=6, Sem::ST, Enc::Default, Kind::SE, Pres::Plain, cert=false, ANSWER, qs=NOQ, fault=0, fork=false, codes=[6]);
-static_harness!(c01_q_st_se_g8_none, n=2, words=1, unwind=6, Sem::ST, Enc::Default, Kind::SE, Pres::Plain, cert=false, ANSWER, qs=NOQ, fault=0, fork=false, codes=[8]);
-static_harness!(c01_q_gr_se_g2_sparse, n=2, words=1, unwind=6, Sem::GR, Enc::Default, Kind::SE, Pres::SparseFirst, cert=false, ANSWER, qs=NOQ, fault=0, fork=false, codes=[2]);
-static_harness!(c01_t_st_se_g14_dup, n=2, words=1, unwind=6, Sem::ST, Enc::Default, Kind::SE, Pres::Dup, cert=false, ANSWER, qs=NOQ, fault=0, fork=false, codes=[14]);
-static_harness!(c01_t_co_se_g6_sparse, n=2, words=1, unwind=6, Sem::CO, Enc::Default, Kind::SE, Pres::SparseMid, cert=false, ANSWER, qs=NOQ, fault=0, fork=false, codes=[6]);
-static_harness!(c01_t_st_se_n3_g42, n=3, words=1, unwind=6, Sem::ST, Enc::Default, Kind::SE, Pres::Plain, cert=false, ANSWER, qs=NOQ, fault=0, fork=false, codes=[42]);
-static_harness!(c01_t_st_se_n3_g84, n=3, words=1, unwind=6, Sem::ST, Enc::Default, Kind::SE, Pres::Plain, cert=false, ANSWER, qs=NOQ, fault=0, fork=false, codes=[84]);
-
-// ---- C02: credulous acceptance (no certificate)
-static_harness!(c02_q_st_dc_g6_a, n=2, words=1, unwind=6, Sem::ST, Enc::Default, Kind::DC, Pres::Plain, cert=false, ANSWER, qs=Q0, fault=0, fork=false, codes=[6]);
-static_harness!(c02_q_st_dc_g2_b, n=2, words=1, unwind=6, Sem::ST, Enc::Default, Kind::DC, Pres::Plain, cert=false, ANSWER, qs=Q1, fault=0, fork=false, codes=[2]);
-static_harness!(c02_q_co_dc_g14_aux_a, n=2, words=1, unwind=7, Sem::CO, Enc::AuxCo, Kind::DC, Pres::Plain, cert=false, ANSWER, qs=Q0, fault=0, fork=false, codes=[14]);
-static_harness!(c02_q_pr_dc_g2_exp_b, n=2, words=1, unwind=6, Sem::PR, Enc::ExpCo, Kind::DC, Pres::Plain, cert=false, ANSWER, qs=Q1, fault=0, fork=false, codes=[2]);
-static_harness!(c02_t_st_dc_g9_none, n=2, words=1, unwind=6, Sem::ST, Enc::Default, Kind::DC, Pres::Plain, cert=false, ANSWER, qs=Q0, fault=0, fork=false, codes=[9]);
-static_harness!(c02_t_co_dc_g6_hybrid, n=2, words=1, unwind=6, Sem::CO, Enc::Hybrid, Kind::DC, Pres::Plain, cert=false, ANSWER, qs=Q1, fault=0, fork=false, codes=[6]);
-static_harness!(c02_t_gr_dc_g10_sparse, n=2, words=1, unwind=6, Sem::GR, Enc::Default, Kind::DC, Pres::SparseFirst, cert=false, ANSWER, qs=SINGLES, fault=0, fork=false, codes=[10]);
-static_harness!(c02_t_st_dc_n3_g42_c, n=3, words=1, unwind=6, Sem::ST, Enc::Default, Kind::DC, Pres::Plain, cert=false, ANSWER, qs=Q2, fault=0, fork=false, codes=[42]);
-static_harness!(c02_t_st_dc_g6_dup, n=2, words=1, unwind=6, Sem::ST, Enc::Default, Kind::DC, Pres::Dup, cert=false, ANSWER, qs=Q1, fault=0, fork=false, codes=[6]);
-
-// ---- C03: skeptical acceptance (no certificate)
-static_harness!(c03_q_st_ds_g6_a, n=2, words=1, unwind=6, Sem::ST, Enc::Default, Kind::DS, Pres::Plain, cert=false, ANSWER, qs=Q0, fault=0, fork=false, codes=[6]);
-static_harness!(c03_q_st_ds_g2_a, n=2, words=1, unwind=6, Sem::ST, Enc::Default, Kind::DS, Pres::Plain, cert=false, ANSWER, qs=Q0, fault=0, fork=false, codes=[2]);
-static_harness!(c03_q_st_ds_g10_none, n=2, words=1, unwind=6, Sem::ST, Enc::Default, Kind::DS, Pres::Plain, cert=false, ANSWER, qs=Q1, fault=0, fork=false, codes=[10]);
-static_harness!(c03_q_co_ds_g2, n=2, words=1, unwind=6, Sem::CO, Enc::Default, Kind::DS, Pres::Plain, cert=false, ANSWER, qs=SINGLES, fault=0, fork=false, codes=[2]);
-static_harness!(c03_t_st_ds_g14_sparse, n=2, words=1, unwind=6, Sem::ST, Enc::Default, Kind::DS, Pres::SparseMid, cert=false, ANSWER, qs=Q0, fault=0, fork=false, codes=[14]);
-static_harness!(c03_t_gr_ds_g6_dup, n=2, words=1, unwind=6, Sem::GR, Enc::Default, Kind::DS, Pres::Dup, cert=false, ANSWER, qs=SINGLES, fault=0, fork=false, codes=[6]);
-static_harness!(c03_t_st_ds_n3_g42_a, n=3, words=1, unwind=6, Sem::ST, Enc::Default, Kind::DS, Pres::Plain, cert=false, ANSWER, qs=Q0, fault=0, fork=false, codes=[42]);
-static_harness!(c03_t_st_ds_g8_none, n=2, words=1, unwind=6, Sem::ST, Enc::Default, Kind::DS, Pres::Plain, cert=false, ANSWER, qs=Q0, fault=0, fork=false, codes=[8]);
-
-// ---- C04: certificates
-static_harness!(c04_q_st_dc_cert_g6_a, n=2, words=1, unwind=6, Sem::ST, Enc::Default, Kind::DC, Pres::Plain, cert=true, CERT, qs=Q0, fault=0, fork=false, codes=[6]);
-static_harness!(c04_q_st_ds_cert_g6_b, n=2, words=1, unwind=6, Sem::ST, Enc::Default, Kind::DS, Pres::Plain, cert=true, CERT, qs=Q1, fault=0, fork=false, codes=[6]);
-static_harness!(c04_q_co_dc_cert_g14_a, n=2, words=1, unwind=7, Sem::CO, Enc::AuxCo, Kind::DC, Pres::Plain, cert=true, CERT, qs=Q0, fault=0, fork=false, codes=[14]);
-static_harness!(c04_q_gr_ds_cert_g2, n=2, words=1, unwind=6, Sem::GR, Enc::Default, Kind::DS, Pres::Plain, cert=true, CERT, qs=SINGLES, fault=0, fork=false, codes=[2]);
-static_harness!(c04_t_st_dc_cert_g0_a, n=2, words=1, unwind=6, Sem::ST, Enc::Default, Kind::DC, Pres::Plain, cert=true, CERT, qs=Q0, fault=0, fork=false, codes=[0]);
-static_harness!(c04_t_pr_dc_cert_g6_exp, n=2, words=1, unwind=6, Sem::PR, Enc::ExpCo, Kind::DC, Pres::Plain, cert=true, CERT, qs=Q1, fault=0, fork=false, codes=[6]);
-static_harness!(c04_t_co_dc_cert_g2_sparse, n=2, words=1, unwind=7, Sem::CO, Enc::AuxCo, Kind::DC, Pres::SparseFirst, cert=true, CERT, qs=Q0, fault=0, fork=false, codes=[2]);
-static_harness!(c04_t_st_dc_cert_n3_g8_c, n=3, words=1, unwind=6, Sem::ST, Enc::Default, Kind::DC, Pres::Plain, cert=true, CERT, qs=Q2, fault=0, fork=false, codes=[8]);
-static_harness!(c04_t_st_ds_cert_g10_dup, n=2, words=1, unwind=6, Sem::ST, Enc::Default, Kind::DS, Pres::Dup, cert=true, CERT, qs=Q0, fault=0, fork=false, codes=[10]);
-
-// ---- C07: lists of arguments are disjunctions, with and without certificate
-static_harness!(c07_q_co_dc_ab_cert_g6, n=2, words=1, unwind=7, Sem::CO, Enc::AuxCo, Kind::DC, Pres::Plain, cert=true, CERT, qs=Q01, fault=0, fork=false, codes=[6]);
-static_harness!(c07_q_st_dc_ba_g2, n=2, words=1, unwind=6, Sem::ST, Enc::Default, Kind::DC, Pres::Plain, cert=false, ANSWER, qs=Q10, fault=0, fork=false, codes=[2]);
-static_harness!(c07_q_st_ds_ab_cert_g6, n=2, words=1, unwind=6, Sem::ST, Enc::Default, Kind::DS, Pres::Plain, cert=true, CERT, qs=Q01, fault=0, fork=false, codes=[6]);
-static_harness!(c07_q_co_dc_ab_g6, n=2, words=1, unwind=7, Sem::CO, Enc::AuxCo, Kind::DC, Pres::Plain, cert=false, ANSWER, qs=Q01, fault=0, fork=false, codes=[6]);
-static_harness!(c07_t_st_dc_ac_cert_n3_g8, n=3, words=1, unwind=6, Sem::ST, Enc::Default, Kind::DC, Pres::Plain, cert=true, CERT, qs=Q02, fault=0, fork=false, codes=[8]);
-static_harness!(c07_t_co_dc_aa_g14_exp, n=2, words=1, unwind=6, Sem::CO, Enc::ExpCo, Kind::DC, Pres::Plain, cert=true, CERT, qs=Q00, fault=0, fork=false, codes=[14]);
-static_harness!(c07_t_gr_pairs_g2, n=2, words=1, unwind=6, Sem::GR, Enc::Default, Kind::DS, Pres::Plain, cert=true, CERT, qs=PAIRS, fault=0, fork=false, codes=[2]);
-static_harness!(c07_t_st_dc_ab_g0, n=2, words=1, unwind=6, Sem::ST, Enc::Default, Kind::DC, Pres::Plain, cert=true, CERT, qs=Q01, fault=0, fork=false, codes=[0]);
-
-// ---- C16 (a): every assumption is covered by the DIMACS header's variable count
-static_harness!(c16_q_st_dc_header_g2, n=2, words=1, unwind=6, Sem::ST, Enc::Default, Kind::DC, Pres::Plain, cert=false, HEADER, qs=Q0, fault=0, fork=false, codes=[2]);
-static_harness!(c16_q_co_dc_header_g6, n=2, words=1, unwind=7, Sem::CO, Enc::AuxCo, Kind::DC, Pres::Plain, cert=true, HEADER, qs=Q1, fault=0, fork=false, codes=[6]);
-static_harness!(c16_q_st_ds_header_g6, n=2, words=1, unwind=6, Sem::ST, Enc::Default, Kind::DS, Pres::Plain, cert=true, HEADER, qs=Q01, fault=0, fork=false, codes=[6]);
-static_harness!(c16_t_co_dc_header_exp, n=2, words=1, unwind=6, Sem::PR, Enc::ExpCo, Kind::DC, Pres::Plain, cert=false, HEADER, qs=Q01, fault=0, fork=false, codes=[14]);
-static_harness!(c16_t_st_dc_header_g0, n=2, words=1, unwind=6, Sem::ST, Enc::Default, Kind::DC, Pres::Plain, cert=true, HEADER, qs=Q01, fault=0, fork=false, codes=[0]);
-
-// ---- C17: a failing backend never becomes an answer (fault position symbolic)
-static_harness!(c17_q_st_dc_fault_g6, n=2, words=1, unwind=6, Sem::ST, Enc::Default, Kind::DC, Pres::Plain, cert=true, FAULT, qs=Q0, fault=2, fork=false, codes=[6]);
-static_harness!(c17_q_co_dc_fault_g2, n=2, words=1, unwind=7, Sem::CO, Enc::AuxCo, Kind::DC, Pres::Plain, cert=false, FAULT, qs=Q1, fault=2, fork=false, codes=[2]);
-static_harness!(c17_q_st_se_fault_g6, n=2, words=1, unwind=6, Sem::ST, Enc::Default, Kind::SE, Pres::Plain, cert=false, FAULT, qs=NOQ, fault=2, fork=false, codes=[6]);
-static_harness!(c17_t_st_ds_fault_g0, n=2, words=1, unwind=6, Sem::ST, Enc::Default, Kind::DS, Pres::Plain, cert=true, FAULT, qs=Q0, fault=3, fork=false, codes=[0]);
-
-// ---- C18: at most two SAT calls per component for CO and ST
-static_harness!(c18_q_st_dc_calls_g6, n=2, words=1, unwind=6, Sem::ST, Enc::Default, Kind::DC, Pres::Plain, cert=true, CALLS, qs=Q01, fault=0, fork=false, codes=[6]);
-static_harness!(c18_q_co_dc_calls_g6, n=2, words=1, unwind=7, Sem::CO, Enc::AuxCo, Kind::DC, Pres::Plain, cert=true, CALLS, qs=Q0, fault=0, fork=false, codes=[6]);
-static_harness!(c18_q_st_ds_calls_g2, n=2, words=1, unwind=6, Sem::ST, Enc::Default, Kind::DS, Pres::Plain, cert=false, CALLS, qs=Q1, fault=0, fork=false, codes=[2]);
-static_harness!(c18_t_st_dc_calls_g0, n=2, words=1, unwind=6, Sem::ST, Enc::Default, Kind::DC, Pres::Plain, cert=true, CALLS, qs=Q01, fault=0, fork=false, codes=[0]);
+// GENERATED-BELOW (lib/gen_harnesses.py)
+static_harness!(c01_q_st_se_def_n2g0_x_pl, n=2, words=1, unwind=6, Sem::ST, Enc::Default, Kind::SE, Pres::Plain, cert=false, ANSWER, qs=[[]], fault=0, codes=[0]);
+static_harness!(c01_q_st_se_def_n2g6_x_pl, n=2, words=1, unwind=6, Sem::ST, Enc::Default, Kind::SE, Pres::Plain, cert=false, ANSWER, qs=[[]], fault=0, codes=[6]);
+static_harness!(c01_q_st_se_def_n2g8_x_pl, n=2, words=1, unwind=6, Sem::ST, Enc::Default, Kind::SE, Pres::Plain, cert=false, ANSWER, qs=[[]], fault=0, codes=[8]);
+static_harness!(c01_q_st_se_def_n2g10_x_pl, n=2, words=1, unwind=6, Sem::ST, Enc::Default, Kind::SE, Pres::Plain, cert=false, ANSWER, qs=[[]], fault=0, codes=[10]);
+static_harness!(c01_q_st_se_def_n2g14_x_pl, n=2, words=1, unwind=6, Sem::ST, Enc::Default, Kind::SE, Pres::Plain, cert=false, ANSWER, qs=[[]], fault=0, codes=[14]);
+static_harness!(c01_q_gr_se_def_n2g2_x_s1, n=2, words=1, unwind=6, Sem::GR, Enc::Default, Kind::SE, Pres::SparseFirst, cert=false, ANSWER, qs=[[]], fault=0, codes=[2]);
+static_harness!(c01_q_gr_se_def_n2g6_x_du, n=2, words=1, unwind=6, Sem::GR, Enc::Default, Kind::SE, Pres::Dup, cert=false, ANSWER, qs=[[]], fault=0, codes=[6]);
+static_harness!(c01_q_gr_se_def_n2g10_x_pl, n=2, words=1, unwind=6, Sem::GR, Enc::Default, Kind::SE, Pres::Plain, cert=false, ANSWER, qs=[[]], fault=0, codes=[10]);
+static_harness!(c01_q_co_se_def_n2g14_x_s2, n=2, words=1, unwind=6, Sem::CO, Enc::Default, Kind::SE, Pres::SparseMid, cert=false, ANSWER, qs=[[]], fault=0, codes=[14]);
+static_harness!(c01_q_st_se_def_n3g42_x_pl, n=3, words=1, unwind=7, Sem::ST, Enc::Default, Kind::SE, Pres::Plain, cert=false, ANSWER, qs=[[]], fault=0, codes=[42]);
+static_harness!(c01_t_st_se_def_n2g9_x_pl, n=2, words=1, unwind=6, Sem::ST, Enc::Default, Kind::SE, Pres::Plain, cert=false, ANSWER, qs=[[]], fault=0, codes=[9]);
+static_harness!(c01_t_st_se_def_n2g2_x_pl, n=2, words=1, unwind=6, Sem::ST, Enc::Default, Kind::SE, Pres::Plain, cert=false, ANSWER, qs=[[]], fault=0, codes=[2]);
+static_harness!(c01_t_st_se_def_n2g7_x_pl, n=2, words=1, unwind=6, Sem::ST, Enc::Default, Kind::SE, Pres::Plain, cert=false, ANSWER, qs=[[]], fault=0, codes=[7]);
+static_harness!(c01_t_st_se_def_n2g11_x_pl, n=2, words=1, unwind=6, Sem::ST, Enc::Default, Kind::SE, Pres::Plain, cert=false, ANSWER, qs=[[]], fault=0, codes=[11]);
+static_harness!(c01_t_st_se_def_n2g0_x_du, n=2, words=1, unwind=6, Sem::ST, Enc::Default, Kind::SE, Pres::Dup, cert=false, ANSWER, qs=[[]], fault=0, codes=[0]);
+static_harness!(c01_t_st_se_def_n2g6_x_s1, n=2, words=1, unwind=6, Sem::ST, Enc::Default, Kind::SE, Pres::SparseFirst, cert=false, ANSWER, qs=[[]], fault=0, codes=[6]);
+static_harness!(c01_t_st_se_def_n2g14_x_s2, n=2, words=1, unwind=6, Sem::ST, Enc::Default, Kind::SE, Pres::SparseMid, cert=false, ANSWER, qs=[[]], fault=0, codes=[14]);
+static_harness!(c01_t_st_se_def_n2g10_x_du, n=2, words=1, unwind=6, Sem::ST, Enc::Default, Kind::SE, Pres::Dup, cert=false, ANSWER, qs=[[]], fault=0, codes=[10]);
+static_harness!(c01_t_st_se_def_n3g98_x_pl, n=3, words=1, unwind=7, Sem::ST, Enc::Default, Kind::SE, Pres::Plain, cert=false, ANSWER, qs=[[]], fault=0, codes=[98]);
+static_harness!(c01_t_st_se_def_n3g8_x_pl, n=3, words=1, unwind=7, Sem::ST, Enc::Default, Kind::SE, Pres::Plain, cert=false, ANSWER, qs=[[]], fault=0, codes=[8]);
+static_harness!(c01_t_st_se_def_n3g290_x_pl, n=3, words=1, unwind=7, Sem::ST, Enc::Default, Kind::SE, Pres::Plain, cert=false, ANSWER, qs=[[]], fault=0, codes=[290]);
+static_harness!(c01_t_st_se_def_n3g0_x_pl, n=3, words=1, unwind=7, Sem::ST, Enc::Default, Kind::SE, Pres::Plain, cert=false, ANSWER, qs=[[]], fault=0, codes=[0]);
+static_harness!(c01_t_st_se_def_n3g34_x_pl, n=3, words=1, unwind=7, Sem::ST, Enc::Default, Kind::SE, Pres::Plain, cert=false, ANSWER, qs=[[]], fault=0, codes=[34]);
+static_harness!(c01_t_gr_se_def_n3g42_x_du, n=3, words=1, unwind=7, Sem::GR, Enc::Default, Kind::SE, Pres::Dup, cert=false, ANSWER, qs=[[]], fault=0, codes=[42]);
+static_harness!(c01_t_gr_se_def_n3g290_x_du, n=3, words=1, unwind=7, Sem::GR, Enc::Default, Kind::SE, Pres::Dup, cert=false, ANSWER, qs=[[]], fault=0, codes=[290]);
+static_harness!(c01_t_gr_se_def_n3g98_x_du, n=3, words=1, unwind=7, Sem::GR, Enc::Default, Kind::SE, Pres::Dup, cert=false, ANSWER, qs=[[]], fault=0, codes=[98]);
+static_harness!(c02_q_st_dc_def_n2g2_b_pl, n=2, words=1, unwind=6, Sem::ST, Enc::Default, Kind::DC, Pres::Plain, cert=false, ANSWER, qs=[[1]], fault=0, codes=[2]);
+static_harness!(c02_q_st_dc_def_n2g6_a_pl, n=2, words=1, unwind=6, Sem::ST, Enc::Default, Kind::DC, Pres::Plain, cert=false, ANSWER, qs=[[0]], fault=0, codes=[6]);
+static_harness!(c02_q_st_dc_def_n2g10_a_pl, n=2, words=1, unwind=6, Sem::ST, Enc::Default, Kind::DC, Pres::Plain, cert=false, ANSWER, qs=[[0]], fault=0, codes=[10]);
+static_harness!(c02_q_st_dc_def_n2g14_b_pl, n=2, words=1, unwind=6, Sem::ST, Enc::Default, Kind::DC, Pres::Plain, cert=false, ANSWER, qs=[[1]], fault=0, codes=[14]);
+static_harness!(c02_q_st_dc_def_n2g0_b_pl, n=2, words=1, unwind=6, Sem::ST, Enc::Default, Kind::DC, Pres::Plain, cert=false, ANSWER, qs=[[1]], fault=0, codes=[0]);
+static_harness!(c02_q_st_dc_def_n2g9_a_pl, n=2, words=1, unwind=6, Sem::ST, Enc::Default, Kind::DC, Pres::Plain, cert=false, ANSWER, qs=[[0]], fault=0, codes=[9]);
+static_harness!(c02_q_co_dc_aux_n2g6_a_pl, n=2, words=1, unwind=7, Sem::CO, Enc::AuxCo, Kind::DC, Pres::Plain, cert=false, ANSWER, qs=[[0]], fault=0, codes=[6]);
+static_harness!(c02_q_co_dc_aux_n2g14_a_pl, n=2, words=1, unwind=7, Sem::CO, Enc::AuxCo, Kind::DC, Pres::Plain, cert=false, ANSWER, qs=[[0]], fault=0, codes=[14]);
+static_harness!(c02_q_co_dc_aux_n2g10_b_pl, n=2, words=1, unwind=7, Sem::CO, Enc::AuxCo, Kind::DC, Pres::Plain, cert=false, ANSWER, qs=[[1]], fault=0, codes=[10]);
+static_harness!(c02_q_co_dc_exp_n2g14_b_pl, n=2, words=1, unwind=6, Sem::CO, Enc::ExpCo, Kind::DC, Pres::Plain, cert=false, ANSWER, qs=[[1]], fault=0, codes=[14]);
+static_harness!(c02_q_co_dc_hyb_n2g6_b_pl, n=2, words=1, unwind=6, Sem::CO, Enc::Hybrid, Kind::DC, Pres::Plain, cert=false, ANSWER, qs=[[1]], fault=0, codes=[6]);
+static_harness!(c02_q_co_dc_def_n2g7_b_pl, n=2, words=1, unwind=7, Sem::CO, Enc::Default, Kind::DC, Pres::Plain, cert=false, ANSWER, qs=[[1]], fault=0, codes=[7]);
+static_harness!(c02_q_pr_dc_exp_n2g2_b_pl, n=2, words=1, unwind=6, Sem::PR, Enc::ExpCo, Kind::DC, Pres::Plain, cert=false, ANSWER, qs=[[1]], fault=0, codes=[2]);
+static_harness!(c02_q_gr_dc_def_n2g10_a_s1, n=2, words=1, unwind=6, Sem::GR, Enc::Default, Kind::DC, Pres::SparseFirst, cert=false, ANSWER, qs=[[0]], fault=0, codes=[10]);
+static_harness!(c02_q_st_dc_def_n3g42_c_pl, n=3, words=1, unwind=7, Sem::ST, Enc::Default, Kind::DC, Pres::Plain, cert=false, ANSWER, qs=[[2]], fault=0, codes=[42]);
+static_harness!(c02_t_st_dc_def_n2g2_a_pl, n=2, words=1, unwind=6, Sem::ST, Enc::Default, Kind::DC, Pres::Plain, cert=false, ANSWER, qs=[[0]], fault=0, codes=[2]);
+static_harness!(c02_t_st_dc_def_n2g2_b_pl, n=2, words=1, unwind=6, Sem::ST, Enc::Default, Kind::DC, Pres::Plain, cert=false, ANSWER, qs=[[1]], fault=0, codes=[2]);
+static_harness!(c02_t_st_dc_def_n2g6_a_pl, n=2, words=1, unwind=6, Sem::ST, Enc::Default, Kind::DC, Pres::Plain, cert=false, ANSWER, qs=[[0]], fault=0, codes=[6]);
+static_harness!(c02_t_st_dc_def_n2g6_b_pl, n=2, words=1, unwind=6, Sem::ST, Enc::Default, Kind::DC, Pres::Plain, cert=false, ANSWER, qs=[[1]], fault=0, codes=[6]);
+static_harness!(c02_t_st_dc_def_n2g10_a_pl, n=2, words=1, unwind=6, Sem::ST, Enc::Default, Kind::DC, Pres::Plain, cert=false, ANSWER, qs=[[0]], fault=0, codes=[10]);
+static_harness!(c02_t_st_dc_def_n2g10_b_pl, n=2, words=1, unwind=6, Sem::ST, Enc::Default, Kind::DC, Pres::Plain, cert=false, ANSWER, qs=[[1]], fault=0, codes=[10]);
+static_harness!(c02_t_st_dc_def_n2g14_a_pl, n=2, words=1, unwind=6, Sem::ST, Enc::Default, Kind::DC, Pres::Plain, cert=false, ANSWER, qs=[[0]], fault=0, codes=[14]);
+static_harness!(c02_t_st_dc_def_n2g14_b_pl, n=2, words=1, unwind=6, Sem::ST, Enc::Default, Kind::DC, Pres::Plain, cert=false, ANSWER, qs=[[1]], fault=0, codes=[14]);
+static_harness!(c02_t_st_dc_def_n2g8_a_pl, n=2, words=1, unwind=6, Sem::ST, Enc::Default, Kind::DC, Pres::Plain, cert=false, ANSWER, qs=[[0]], fault=0, codes=[8]);
+static_harness!(c02_t_st_dc_def_n2g8_b_pl, n=2, words=1, unwind=6, Sem::ST, Enc::Default, Kind::DC, Pres::Plain, cert=false, ANSWER, qs=[[1]], fault=0, codes=[8]);
+static_harness!(c02_t_st_dc_def_n2g7_a_pl, n=2, words=1, unwind=6, Sem::ST, Enc::Default, Kind::DC, Pres::Plain, cert=false, ANSWER, qs=[[0]], fault=0, codes=[7]);
+static_harness!(c02_t_st_dc_def_n2g7_b_pl, n=2, words=1, unwind=6, Sem::ST, Enc::Default, Kind::DC, Pres::Plain, cert=false, ANSWER, qs=[[1]], fault=0, codes=[7]);
+static_harness!(c02_t_st_dc_def_n2g11_a_pl, n=2, words=1, unwind=6, Sem::ST, Enc::Default, Kind::DC, Pres::Plain, cert=false, ANSWER, qs=[[0]], fault=0, codes=[11]);
+static_harness!(c02_t_st_dc_def_n2g11_b_pl, n=2, words=1, unwind=6, Sem::ST, Enc::Default, Kind::DC, Pres::Plain, cert=false, ANSWER, qs=[[1]], fault=0, codes=[11]);
+static_harness!(c02_t_co_dc_aux_n2g6_a_pl, n=2, words=1, unwind=7, Sem::CO, Enc::AuxCo, Kind::DC, Pres::Plain, cert=false, ANSWER, qs=[[0]], fault=0, codes=[6]);
+static_harness!(c02_t_co_dc_aux_n2g6_b_pl, n=2, words=1, unwind=7, Sem::CO, Enc::AuxCo, Kind::DC, Pres::Plain, cert=false, ANSWER, qs=[[1]], fault=0, codes=[6]);
+static_harness!(c02_t_co_dc_aux_n2g14_a_pl, n=2, words=1, unwind=7, Sem::CO, Enc::AuxCo, Kind::DC, Pres::Plain, cert=false, ANSWER, qs=[[0]], fault=0, codes=[14]);
+static_harness!(c02_t_co_dc_aux_n2g14_b_pl, n=2, words=1, unwind=7, Sem::CO, Enc::AuxCo, Kind::DC, Pres::Plain, cert=false, ANSWER, qs=[[1]], fault=0, codes=[14]);
+static_harness!(c02_t_co_dc_aux_n2g7_a_pl, n=2, words=1, unwind=7, Sem::CO, Enc::AuxCo, Kind::DC, Pres::Plain, cert=false, ANSWER, qs=[[0]], fault=0, codes=[7]);
+static_harness!(c02_t_co_dc_aux_n2g7_b_pl, n=2, words=1, unwind=7, Sem::CO, Enc::AuxCo, Kind::DC, Pres::Plain, cert=false, ANSWER, qs=[[1]], fault=0, codes=[7]);
+static_harness!(c02_t_co_dc_aux_n2g10_a_pl, n=2, words=1, unwind=7, Sem::CO, Enc::AuxCo, Kind::DC, Pres::Plain, cert=false, ANSWER, qs=[[0]], fault=0, codes=[10]);
+static_harness!(c02_t_co_dc_aux_n2g10_b_pl, n=2, words=1, unwind=7, Sem::CO, Enc::AuxCo, Kind::DC, Pres::Plain, cert=false, ANSWER, qs=[[1]], fault=0, codes=[10]);
+static_harness!(c02_t_co_dc_aux_n2g0_a_pl, n=2, words=1, unwind=7, Sem::CO, Enc::AuxCo, Kind::DC, Pres::Plain, cert=false, ANSWER, qs=[[0]], fault=0, codes=[0]);
+static_harness!(c02_t_co_dc_aux_n2g0_b_pl, n=2, words=1, unwind=7, Sem::CO, Enc::AuxCo, Kind::DC, Pres::Plain, cert=false, ANSWER, qs=[[1]], fault=0, codes=[0]);
+static_harness!(c02_t_co_dc_exp_n2g6_a_pl, n=2, words=1, unwind=6, Sem::CO, Enc::ExpCo, Kind::DC, Pres::Plain, cert=false, ANSWER, qs=[[0]], fault=0, codes=[6]);
+static_harness!(c02_t_co_dc_hyb_n2g14_a_pl, n=2, words=1, unwind=6, Sem::CO, Enc::Hybrid, Kind::DC, Pres::Plain, cert=false, ANSWER, qs=[[0]], fault=0, codes=[14]);
+static_harness!(c02_t_co_dc_aux_n2g6_b_du, n=2, words=1, unwind=7, Sem::CO, Enc::AuxCo, Kind::DC, Pres::Dup, cert=false, ANSWER, qs=[[1]], fault=0, codes=[6]);
+static_harness!(c02_t_co_dc_aux_n2g14_b_s1, n=2, words=1, unwind=7, Sem::CO, Enc::AuxCo, Kind::DC, Pres::SparseFirst, cert=false, ANSWER, qs=[[1]], fault=0, codes=[14]);
+static_harness!(c02_t_co_dc_def_n2g2_a_s2, n=2, words=1, unwind=7, Sem::CO, Enc::Default, Kind::DC, Pres::SparseMid, cert=false, ANSWER, qs=[[0]], fault=0, codes=[2]);
+static_harness!(c02_t_st_dc_def_n3g42_a_pl, n=3, words=1, unwind=7, Sem::ST, Enc::Default, Kind::DC, Pres::Plain, cert=false, ANSWER, qs=[[0]], fault=0, codes=[42]);
+static_harness!(c02_t_st_dc_def_n3g42_b_pl, n=3, words=1, unwind=7, Sem::ST, Enc::Default, Kind::DC, Pres::Plain, cert=false, ANSWER, qs=[[1]], fault=0, codes=[42]);
+static_harness!(c02_t_st_dc_def_n3g98_a_pl, n=3, words=1, unwind=7, Sem::ST, Enc::Default, Kind::DC, Pres::Plain, cert=false, ANSWER, qs=[[0]], fault=0, codes=[98]);
+static_harness!(c02_t_st_dc_def_n3g290_a_pl, n=3, words=1, unwind=7, Sem::ST, Enc::Default, Kind::DC, Pres::Plain, cert=false, ANSWER, qs=[[0]], fault=0, codes=[290]);
+static_harness!(c02_t_st_dc_def_n3g8_a_pl, n=3, words=1, unwind=7, Sem::ST, Enc::Default, Kind::DC, Pres::Plain, cert=false, ANSWER, qs=[[0]], fault=0, codes=[8]);
+static_harness!(c02_t_st_dc_def_n3g34_c_pl, n=3, words=1, unwind=7, Sem::ST, Enc::Default, Kind::DC, Pres::Plain, cert=false, ANSWER, qs=[[2]], fault=0, codes=[34]);
+static_harness!(c02_t_co_dc_aux_n3g137_c_pl, n=3, words=2, unwind=9, Sem::CO, Enc::AuxCo, Kind::DC, Pres::Plain, cert=false, ANSWER, qs=[[2]], fault=0, codes=[137]);
+static_harness!(c02_t_co_dc_aux_n3g42_c_pl, n=3, words=2, unwind=9, Sem::CO, Enc::AuxCo, Kind::DC, Pres::Plain, cert=false, ANSWER, qs=[[2]], fault=0, codes=[42]);
+static_harness!(c02_t_co_dc_aux_n3g290_b_pl, n=3, words=2, unwind=9, Sem::CO, Enc::AuxCo, Kind::DC, Pres::Plain, cert=false, ANSWER, qs=[[1]], fault=0, codes=[290]);
+static_harness!(c02_t_gr_dc_def_n3g290_c_du, n=3, words=1, unwind=7, Sem::GR, Enc::Default, Kind::DC, Pres::Dup, cert=false, ANSWER, qs=[[2]], fault=0, codes=[290]);
+static_harness!(c02_t_gr_dc_def_n3g42_a_du, n=3, words=1, unwind=7, Sem::GR, Enc::Default, Kind::DC, Pres::Dup, cert=false, ANSWER, qs=[[0]], fault=0, codes=[42]);
+static_harness!(c03_q_st_ds_def_n2g2_a_pl, n=2, words=1, unwind=6, Sem::ST, Enc::Default, Kind::DS, Pres::Plain, cert=false, ANSWER, qs=[[0]], fault=0, codes=[2]);
+static_harness!(c03_q_st_ds_def_n2g6_a_pl, n=2, words=1, unwind=6, Sem::ST, Enc::Default, Kind::DS, Pres::Plain, cert=false, ANSWER, qs=[[0]], fault=0, codes=[6]);
+static_harness!(c03_q_st_ds_def_n2g10_b_pl, n=2, words=1, unwind=6, Sem::ST, Enc::Default, Kind::DS, Pres::Plain, cert=false, ANSWER, qs=[[1]], fault=0, codes=[10]);
+static_harness!(c03_q_st_ds_def_n2g14_a_pl, n=2, words=1, unwind=6, Sem::ST, Enc::Default, Kind::DS, Pres::Plain, cert=false, ANSWER, qs=[[0]], fault=0, codes=[14]);
+static_harness!(c03_q_st_ds_def_n2g8_a_pl, n=2, words=1, unwind=6, Sem::ST, Enc::Default, Kind::DS, Pres::Plain, cert=false, ANSWER, qs=[[0]], fault=0, codes=[8]);
+static_harness!(c03_q_st_ds_def_n2g9_b_pl, n=2, words=1, unwind=6, Sem::ST, Enc::Default, Kind::DS, Pres::Plain, cert=false, ANSWER, qs=[[1]], fault=0, codes=[9]);
+static_harness!(c03_q_gr_ds_def_n2g2_b_pl, n=2, words=1, unwind=6, Sem::GR, Enc::Default, Kind::DS, Pres::Plain, cert=false, ANSWER, qs=[[1]], fault=0, codes=[2]);
+static_harness!(c03_q_gr_ds_def_n2g6_a_du, n=2, words=1, unwind=6, Sem::GR, Enc::Default, Kind::DS, Pres::Dup, cert=false, ANSWER, qs=[[0]], fault=0, codes=[6]);
+static_harness!(c03_q_gr_ds_def_n2g10_a_s1, n=2, words=1, unwind=6, Sem::GR, Enc::Default, Kind::DS, Pres::SparseFirst, cert=false, ANSWER, qs=[[0]], fault=0, codes=[10]);
+static_harness!(c03_q_co_ds_def_n2g2_a_s2, n=2, words=1, unwind=6, Sem::CO, Enc::Default, Kind::DS, Pres::SparseMid, cert=false, ANSWER, qs=[[0]], fault=0, codes=[2]);
+static_harness!(c03_q_st_ds_def_n3g42_a_pl, n=3, words=1, unwind=7, Sem::ST, Enc::Default, Kind::DS, Pres::Plain, cert=false, ANSWER, qs=[[0]], fault=0, codes=[42]);
+static_harness!(c03_q_gr_ds_def_n3g290_c_du, n=3, words=1, unwind=7, Sem::GR, Enc::Default, Kind::DS, Pres::Dup, cert=false, ANSWER, qs=[[2]], fault=0, codes=[290]);
+static_harness!(c03_t_st_ds_def_n2g2_a_pl, n=2, words=1, unwind=6, Sem::ST, Enc::Default, Kind::DS, Pres::Plain, cert=false, ANSWER, qs=[[0]], fault=0, codes=[2]);
+static_harness!(c03_t_st_ds_def_n2g2_b_pl, n=2, words=1, unwind=6, Sem::ST, Enc::Default, Kind::DS, Pres::Plain, cert=false, ANSWER, qs=[[1]], fault=0, codes=[2]);
+static_harness!(c03_t_st_ds_def_n2g6_a_pl, n=2, words=1, unwind=6, Sem::ST, Enc::Default, Kind::DS, Pres::Plain, cert=false, ANSWER, qs=[[0]], fault=0, codes=[6]);
+static_harness!(c03_t_st_ds_def_n2g6_b_pl, n=2, words=1, unwind=6, Sem::ST, Enc::Default, Kind::DS, Pres::Plain, cert=false, ANSWER, qs=[[1]], fault=0, codes=[6]);
+static_harness!(c03_t_st_ds_def_n2g10_a_pl, n=2, words=1, unwind=6, Sem::ST, Enc::Default, Kind::DS, Pres::Plain, cert=false, ANSWER, qs=[[0]], fault=0, codes=[10]);
+static_harness!(c03_t_st_ds_def_n2g10_b_pl, n=2, words=1, unwind=6, Sem::ST, Enc::Default, Kind::DS, Pres::Plain, cert=false, ANSWER, qs=[[1]], fault=0, codes=[10]);
+static_harness!(c03_t_st_ds_def_n2g14_a_pl, n=2, words=1, unwind=6, Sem::ST, Enc::Default, Kind::DS, Pres::Plain, cert=false, ANSWER, qs=[[0]], fault=0, codes=[14]);
+static_harness!(c03_t_st_ds_def_n2g14_b_pl, n=2, words=1, unwind=6, Sem::ST, Enc::Default, Kind::DS, Pres::Plain, cert=false, ANSWER, qs=[[1]], fault=0, codes=[14]);
+static_harness!(c03_t_st_ds_def_n2g0_a_pl, n=2, words=1, unwind=6, Sem::ST, Enc::Default, Kind::DS, Pres::Plain, cert=false, ANSWER, qs=[[0]], fault=0, codes=[0]);
+static_harness!(c03_t_st_ds_def_n2g0_b_pl, n=2, words=1, unwind=6, Sem::ST, Enc::Default, Kind::DS, Pres::Plain, cert=false, ANSWER, qs=[[1]], fault=0, codes=[0]);
+static_harness!(c03_t_st_ds_def_n2g7_a_pl, n=2, words=1, unwind=6, Sem::ST, Enc::Default, Kind::DS, Pres::Plain, cert=false, ANSWER, qs=[[0]], fault=0, codes=[7]);
+static_harness!(c03_t_st_ds_def_n2g7_b_pl, n=2, words=1, unwind=6, Sem::ST, Enc::Default, Kind::DS, Pres::Plain, cert=false, ANSWER, qs=[[1]], fault=0, codes=[7]);
+static_harness!(c03_t_st_ds_def_n2g11_a_pl, n=2, words=1, unwind=6, Sem::ST, Enc::Default, Kind::DS, Pres::Plain, cert=false, ANSWER, qs=[[0]], fault=0, codes=[11]);
+static_harness!(c03_t_st_ds_def_n2g11_b_pl, n=2, words=1, unwind=6, Sem::ST, Enc::Default, Kind::DS, Pres::Plain, cert=false, ANSWER, qs=[[1]], fault=0, codes=[11]);
+static_harness!(c03_t_st_ds_def_n2g6_b_s1, n=2, words=1, unwind=6, Sem::ST, Enc::Default, Kind::DS, Pres::SparseFirst, cert=false, ANSWER, qs=[[1]], fault=0, codes=[6]);
+static_harness!(c03_t_st_ds_def_n2g14_b_du, n=2, words=1, unwind=6, Sem::ST, Enc::Default, Kind::DS, Pres::Dup, cert=false, ANSWER, qs=[[1]], fault=0, codes=[14]);
+static_harness!(c03_t_st_ds_def_n2g2_b_s2, n=2, words=1, unwind=6, Sem::ST, Enc::Default, Kind::DS, Pres::SparseMid, cert=false, ANSWER, qs=[[1]], fault=0, codes=[2]);
+static_harness!(c03_t_st_ds_def_n3g42_b_pl, n=3, words=1, unwind=7, Sem::ST, Enc::Default, Kind::DS, Pres::Plain, cert=false, ANSWER, qs=[[1]], fault=0, codes=[42]);
+static_harness!(c03_t_st_ds_def_n3g42_c_pl, n=3, words=1, unwind=7, Sem::ST, Enc::Default, Kind::DS, Pres::Plain, cert=false, ANSWER, qs=[[2]], fault=0, codes=[42]);
+static_harness!(c03_t_st_ds_def_n3g98_b_pl, n=3, words=1, unwind=7, Sem::ST, Enc::Default, Kind::DS, Pres::Plain, cert=false, ANSWER, qs=[[1]], fault=0, codes=[98]);
+static_harness!(c03_t_st_ds_def_n3g290_a_pl, n=3, words=1, unwind=7, Sem::ST, Enc::Default, Kind::DS, Pres::Plain, cert=false, ANSWER, qs=[[0]], fault=0, codes=[290]);
+static_harness!(c03_t_st_ds_def_n3g8_c_pl, n=3, words=1, unwind=7, Sem::ST, Enc::Default, Kind::DS, Pres::Plain, cert=false, ANSWER, qs=[[2]], fault=0, codes=[8]);
+static_harness!(c03_t_st_ds_def_n3g34_b_pl, n=3, words=1, unwind=7, Sem::ST, Enc::Default, Kind::DS, Pres::Plain, cert=false, ANSWER, qs=[[1]], fault=0, codes=[34]);
+static_harness!(c03_t_gr_ds_def_n3g34_c_du, n=3, words=1, unwind=7, Sem::GR, Enc::Default, Kind::DS, Pres::Dup, cert=false, ANSWER, qs=[[2]], fault=0, codes=[34]);
+static_harness!(c03_t_gr_ds_def_n3g42_c_du, n=3, words=1, unwind=7, Sem::GR, Enc::Default, Kind::DS, Pres::Dup, cert=false, ANSWER, qs=[[2]], fault=0, codes=[42]);
+static_harness!(c03_t_gr_ds_def_n3g290_b_du, n=3, words=1, unwind=7, Sem::GR, Enc::Default, Kind::DS, Pres::Dup, cert=false, ANSWER, qs=[[1]], fault=0, codes=[290]);
+static_harness!(c03_t_gr_ds_def_n3g137_a_du, n=3, words=1, unwind=7, Sem::GR, Enc::Default, Kind::DS, Pres::Dup, cert=false, ANSWER, qs=[[0]], fault=0, codes=[137]);
+static_harness!(c04_q_st_dc_def_n2g0_a_pl_cert, n=2, words=1, unwind=6, Sem::ST, Enc::Default, Kind::DC, Pres::Plain, cert=true, CERT, qs=[[0]], fault=0, codes=[0]);
+static_harness!(c04_q_st_dc_def_n2g2_a_pl_cert, n=2, words=1, unwind=6, Sem::ST, Enc::Default, Kind::DC, Pres::Plain, cert=true, CERT, qs=[[0]], fault=0, codes=[2]);
+static_harness!(c04_q_st_dc_def_n2g6_b_pl_cert, n=2, words=1, unwind=6, Sem::ST, Enc::Default, Kind::DC, Pres::Plain, cert=true, CERT, qs=[[1]], fault=0, codes=[6]);
+static_harness!(c04_q_st_dc_def_n2g14_a_pl_cert, n=2, words=1, unwind=6, Sem::ST, Enc::Default, Kind::DC, Pres::Plain, cert=true, CERT, qs=[[0]], fault=0, codes=[14]);
+static_harness!(c04_q_st_ds_def_n2g6_a_pl_cert, n=2, words=1, unwind=6, Sem::ST, Enc::Default, Kind::DS, Pres::Plain, cert=true, CERT, qs=[[0]], fault=0, codes=[6]);
+static_harness!(c04_q_st_ds_def_n2g10_a_pl_cert, n=2, words=1, unwind=6, Sem::ST, Enc::Default, Kind::DS, Pres::Plain, cert=true, CERT, qs=[[0]], fault=0, codes=[10]);
+static_harness!(c04_q_st_ds_def_n2g2_b_pl_cert, n=2, words=1, unwind=6, Sem::ST, Enc::Default, Kind::DS, Pres::Plain, cert=true, CERT, qs=[[1]], fault=0, codes=[2]);
+static_harness!(c04_q_co_dc_aux_n2g6_a_pl_cert, n=2, words=1, unwind=7, Sem::CO, Enc::AuxCo, Kind::DC, Pres::Plain, cert=true, CERT, qs=[[0]], fault=0, codes=[6]);
+static_harness!(c04_q_co_dc_aux_n2g14_a_s1_cert, n=2, words=1, unwind=7, Sem::CO, Enc::AuxCo, Kind::DC, Pres::SparseFirst, cert=true, CERT, qs=[[0]], fault=0, codes=[14]);
+static_harness!(c04_q_co_dc_exp_n2g0_b_pl_cert, n=2, words=1, unwind=6, Sem::CO, Enc::ExpCo, Kind::DC, Pres::Plain, cert=true, CERT, qs=[[1]], fault=0, codes=[0]);
+static_harness!(c04_q_gr_ds_def_n2g2_b_pl_cert, n=2, words=1, unwind=6, Sem::GR, Enc::Default, Kind::DS, Pres::Plain, cert=true, CERT, qs=[[1]], fault=0, codes=[2]);
+static_harness!(c04_q_gr_dc_def_n2g2_a_s2_cert, n=2, words=1, unwind=6, Sem::GR, Enc::Default, Kind::DC, Pres::SparseMid, cert=true, CERT, qs=[[0]], fault=0, codes=[2]);
+static_harness!(c04_q_co_dc_aux_n3g0_a_pl_cert, n=3, words=2, unwind=9, Sem::CO, Enc::AuxCo, Kind::DC, Pres::Plain, cert=true, CERT, qs=[[0]], fault=0, codes=[0]);
+static_harness!(c04_q_st_dc_def_n3g8_c_pl_cert, n=3, words=1, unwind=7, Sem::ST, Enc::Default, Kind::DC, Pres::Plain, cert=true, CERT, qs=[[2]], fault=0, codes=[8]);
+static_harness!(c04_t_st_dc_def_n2g0_a_pl_cert, n=2, words=1, unwind=6, Sem::ST, Enc::Default, Kind::DC, Pres::Plain, cert=true, CERT, qs=[[0]], fault=0, codes=[0]);
+static_harness!(c04_t_st_ds_def_n2g0_a_pl_cert, n=2, words=1, unwind=6, Sem::ST, Enc::Default, Kind::DS, Pres::Plain, cert=true, CERT, qs=[[0]], fault=0, codes=[0]);
+static_harness!(c04_t_st_dc_def_n2g0_b_pl_cert, n=2, words=1, unwind=6, Sem::ST, Enc::Default, Kind::DC, Pres::Plain, cert=true, CERT, qs=[[1]], fault=0, codes=[0]);
+static_harness!(c04_t_st_ds_def_n2g0_b_pl_cert, n=2, words=1, unwind=6, Sem::ST, Enc::Default, Kind::DS, Pres::Plain, cert=true, CERT, qs=[[1]], fault=0, codes=[0]);
+static_harness!(c04_t_st_dc_def_n2g2_a_pl_cert, n=2, words=1, unwind=6, Sem::ST, Enc::Default, Kind::DC, Pres::Plain, cert=true, CERT, qs=[[0]], fault=0, codes=[2]);
+static_harness!(c04_t_st_ds_def_n2g2_a_pl_cert, n=2, words=1, unwind=6, Sem::ST, Enc::Default, Kind::DS, Pres::Plain, cert=true, CERT, qs=[[0]], fault=0, codes=[2]);
+static_harness!(c04_t_st_dc_def_n2g2_b_pl_cert, n=2, words=1, unwind=6, Sem::ST, Enc::Default, Kind::DC, Pres::Plain, cert=true, CERT, qs=[[1]], fault=0, codes=[2]);
+static_harness!(c04_t_st_ds_def_n2g2_b_pl_cert, n=2, words=1, unwind=6, Sem::ST, Enc::Default, Kind::DS, Pres::Plain, cert=true, CERT, qs=[[1]], fault=0, codes=[2]);
+static_harness!(c04_t_st_dc_def_n2g6_a_pl_cert, n=2, words=1, unwind=6, Sem::ST, Enc::Default, Kind::DC, Pres::Plain, cert=true, CERT, qs=[[0]], fault=0, codes=[6]);
+static_harness!(c04_t_st_ds_def_n2g6_a_pl_cert, n=2, words=1, unwind=6, Sem::ST, Enc::Default, Kind::DS, Pres::Plain, cert=true, CERT, qs=[[0]], fault=0, codes=[6]);
+static_harness!(c04_t_st_dc_def_n2g6_b_pl_cert, n=2, words=1, unwind=6, Sem::ST, Enc::Default, Kind::DC, Pres::Plain, cert=true, CERT, qs=[[1]], fault=0, codes=[6]);
+static_harness!(c04_t_st_ds_def_n2g6_b_pl_cert, n=2, words=1, unwind=6, Sem::ST, Enc::Default, Kind::DS, Pres::Plain, cert=true, CERT, qs=[[1]], fault=0, codes=[6]);
+static_harness!(c04_t_st_dc_def_n2g14_a_pl_cert, n=2, words=1, unwind=6, Sem::ST, Enc::Default, Kind::DC, Pres::Plain, cert=true, CERT, qs=[[0]], fault=0, codes=[14]);
+static_harness!(c04_t_st_ds_def_n2g14_a_pl_cert, n=2, words=1, unwind=6, Sem::ST, Enc::Default, Kind::DS, Pres::Plain, cert=true, CERT, qs=[[0]], fault=0, codes=[14]);
+static_harness!(c04_t_st_dc_def_n2g14_b_pl_cert, n=2, words=1, unwind=6, Sem::ST, Enc::Default, Kind::DC, Pres::Plain, cert=true, CERT, qs=[[1]], fault=0, codes=[14]);
+static_harness!(c04_t_st_ds_def_n2g14_b_pl_cert, n=2, words=1, unwind=6, Sem::ST, Enc::Default, Kind::DS, Pres::Plain, cert=true, CERT, qs=[[1]], fault=0, codes=[14]);
+static_harness!(c04_t_st_dc_def_n2g8_a_pl_cert, n=2, words=1, unwind=6, Sem::ST, Enc::Default, Kind::DC, Pres::Plain, cert=true, CERT, qs=[[0]], fault=0, codes=[8]);
+static_harness!(c04_t_st_ds_def_n2g8_a_pl_cert, n=2, words=1, unwind=6, Sem::ST, Enc::Default, Kind::DS, Pres::Plain, cert=true, CERT, qs=[[0]], fault=0, codes=[8]);
+static_harness!(c04_t_st_dc_def_n2g8_b_pl_cert, n=2, words=1, unwind=6, Sem::ST, Enc::Default, Kind::DC, Pres::Plain, cert=true, CERT, qs=[[1]], fault=0, codes=[8]);
+static_harness!(c04_t_st_ds_def_n2g8_b_pl_cert, n=2, words=1, unwind=6, Sem::ST, Enc::Default, Kind::DS, Pres::Plain, cert=true, CERT, qs=[[1]], fault=0, codes=[8]);
+static_harness!(c04_t_co_dc_aux_n2g6_b_du_cert, n=2, words=1, unwind=7, Sem::CO, Enc::AuxCo, Kind::DC, Pres::Dup, cert=true, CERT, qs=[[1]], fault=0, codes=[6]);
+static_harness!(c04_t_co_dc_exp_n2g14_b_pl_cert, n=2, words=1, unwind=6, Sem::CO, Enc::ExpCo, Kind::DC, Pres::Plain, cert=true, CERT, qs=[[1]], fault=0, codes=[14]);
+static_harness!(c04_t_co_dc_hyb_n2g6_a_pl_cert, n=2, words=1, unwind=6, Sem::CO, Enc::Hybrid, Kind::DC, Pres::Plain, cert=true, CERT, qs=[[0]], fault=0, codes=[6]);
+static_harness!(c04_t_co_dc_aux_n2g0_a_s2_cert, n=2, words=1, unwind=7, Sem::CO, Enc::AuxCo, Kind::DC, Pres::SparseMid, cert=true, CERT, qs=[[0]], fault=0, codes=[0]);
+static_harness!(c04_t_co_dc_aux_n2g7_b_pl_cert, n=2, words=1, unwind=7, Sem::CO, Enc::AuxCo, Kind::DC, Pres::Plain, cert=true, CERT, qs=[[1]], fault=0, codes=[7]);
+static_harness!(c04_t_pr_dc_exp_n2g2_b_pl_cert, n=2, words=1, unwind=6, Sem::PR, Enc::ExpCo, Kind::DC, Pres::Plain, cert=true, CERT, qs=[[1]], fault=0, codes=[2]);
+static_harness!(c04_t_st_dc_def_n3g42_a_pl_cert, n=3, words=1, unwind=7, Sem::ST, Enc::Default, Kind::DC, Pres::Plain, cert=true, CERT, qs=[[0]], fault=0, codes=[42]);
+static_harness!(c04_t_st_dc_def_n3g42_c_pl_cert, n=3, words=1, unwind=7, Sem::ST, Enc::Default, Kind::DC, Pres::Plain, cert=true, CERT, qs=[[2]], fault=0, codes=[42]);
+static_harness!(c04_t_st_dc_def_n3g0_b_pl_cert, n=3, words=1, unwind=7, Sem::ST, Enc::Default, Kind::DC, Pres::Plain, cert=true, CERT, qs=[[1]], fault=0, codes=[0]);
+static_harness!(c04_t_st_dc_def_n3g2_c_pl_cert, n=3, words=1, unwind=7, Sem::ST, Enc::Default, Kind::DC, Pres::Plain, cert=true, CERT, qs=[[2]], fault=0, codes=[2]);
+static_harness!(c04_t_st_dc_def_n3g98_a_pl_cert, n=3, words=1, unwind=7, Sem::ST, Enc::Default, Kind::DC, Pres::Plain, cert=true, CERT, qs=[[0]], fault=0, codes=[98]);
+static_harness!(c04_t_st_ds_def_n3g42_b_pl_cert, n=3, words=1, unwind=7, Sem::ST, Enc::Default, Kind::DS, Pres::Plain, cert=true, CERT, qs=[[1]], fault=0, codes=[42]);
+static_harness!(c04_t_st_ds_def_n3g8_a_pl_cert, n=3, words=1, unwind=7, Sem::ST, Enc::Default, Kind::DS, Pres::Plain, cert=true, CERT, qs=[[0]], fault=0, codes=[8]);
+static_harness!(c04_t_st_ds_def_n3g34_b_pl_cert, n=3, words=1, unwind=7, Sem::ST, Enc::Default, Kind::DS, Pres::Plain, cert=true, CERT, qs=[[1]], fault=0, codes=[34]);
+static_harness!(c04_t_co_dc_aux_n3g0_b_pl_cert, n=3, words=2, unwind=9, Sem::CO, Enc::AuxCo, Kind::DC, Pres::Plain, cert=true, CERT, qs=[[1]], fault=0, codes=[0]);
+static_harness!(c04_t_co_dc_aux_n3g2_c_pl_cert, n=3, words=2, unwind=9, Sem::CO, Enc::AuxCo, Kind::DC, Pres::Plain, cert=true, CERT, qs=[[2]], fault=0, codes=[2]);
+static_harness!(c04_t_co_dc_aux_n3g42_a_pl_cert, n=3, words=2, unwind=9, Sem::CO, Enc::AuxCo, Kind::DC, Pres::Plain, cert=true, CERT, qs=[[0]], fault=0, codes=[42]);
+static_harness!(c04_t_co_dc_aux_n3g8_c_pl_cert, n=3, words=2, unwind=9, Sem::CO, Enc::AuxCo, Kind::DC, Pres::Plain, cert=true, CERT, qs=[[2]], fault=0, codes=[8]);
+static_harness!(c07_q_co_dc_aux_n2g6_ab_pl_cert, n=2, words=1, unwind=7, Sem::CO, Enc::AuxCo, Kind::DC, Pres::Plain, cert=true, CERT, qs=[[0, 1]], fault=0, codes=[6]);
+static_harness!(c07_q_co_dc_aux_n2g0_ab_pl_cert, n=2, words=1, unwind=7, Sem::CO, Enc::AuxCo, Kind::DC, Pres::Plain, cert=true, CERT, qs=[[0, 1]], fault=0, codes=[0]);
+static_harness!(c07_q_co_dc_aux_n2g14_ba_pl_cert, n=2, words=1, unwind=7, Sem::CO, Enc::AuxCo, Kind::DC, Pres::Plain, cert=true, CERT, qs=[[1, 0]], fault=0, codes=[14]);
+static_harness!(c07_q_co_dc_aux_n2g6_ab_pl, n=2, words=1, unwind=7, Sem::CO, Enc::AuxCo, Kind::DC, Pres::Plain, cert=false, ANSWER, qs=[[0, 1]], fault=0, codes=[6]);
+static_harness!(c07_q_st_dc_def_n2g2_ba_pl_cert, n=2, words=1, unwind=6, Sem::ST, Enc::Default, Kind::DC, Pres::Plain, cert=true, CERT, qs=[[1, 0]], fault=0, codes=[2]);
+static_harness!(c07_q_st_dc_def_n2g0_ab_pl_cert, n=2, words=1, unwind=6, Sem::ST, Enc::Default, Kind::DC, Pres::Plain, cert=true, CERT, qs=[[0, 1]], fault=0, codes=[0]);
+static_harness!(c07_q_st_dc_def_n2g9_aa_pl_cert, n=2, words=1, unwind=6, Sem::ST, Enc::Default, Kind::DC, Pres::Plain, cert=true, CERT, qs=[[0, 0]], fault=0, codes=[9]);
+static_harness!(c07_q_st_dc_def_n2g10_ba_pl_cert, n=2, words=1, unwind=6, Sem::ST, Enc::Default, Kind::DC, Pres::Plain, cert=true, CERT, qs=[[1, 0]], fault=0, codes=[10]);
+static_harness!(c07_q_st_ds_def_n2g6_ab_pl_cert, n=2, words=1, unwind=6, Sem::ST, Enc::Default, Kind::DS, Pres::Plain, cert=true, CERT, qs=[[0, 1]], fault=0, codes=[6]);
+static_harness!(c07_q_st_ds_def_n2g2_bb_pl_cert, n=2, words=1, unwind=6, Sem::ST, Enc::Default, Kind::DS, Pres::Plain, cert=true, CERT, qs=[[1, 1]], fault=0, codes=[2]);
+static_harness!(c07_q_gr_ds_def_n2g2_ba_pl_cert, n=2, words=1, unwind=6, Sem::GR, Enc::Default, Kind::DS, Pres::Plain, cert=true, CERT, qs=[[1, 0]], fault=0, codes=[2]);
+static_harness!(c07_q_st_dc_def_n3g8_ac_pl_cert, n=3, words=1, unwind=7, Sem::ST, Enc::Default, Kind::DC, Pres::Plain, cert=true, CERT, qs=[[0, 2]], fault=0, codes=[8]);
+static_harness!(c07_q_st_dc_def_n3g2_bc_pl, n=3, words=1, unwind=7, Sem::ST, Enc::Default, Kind::DC, Pres::Plain, cert=false, ANSWER, qs=[[1, 2]], fault=0, codes=[2]);
+static_harness!(c07_t_co_dc_exp_n2g6_ba_pl_cert, n=2, words=1, unwind=6, Sem::CO, Enc::ExpCo, Kind::DC, Pres::Plain, cert=true, CERT, qs=[[1, 0]], fault=0, codes=[6]);
+static_harness!(c07_t_co_dc_exp_n2g14_ab_pl_cert, n=2, words=1, unwind=6, Sem::CO, Enc::ExpCo, Kind::DC, Pres::Plain, cert=true, CERT, qs=[[0, 1]], fault=0, codes=[14]);
+static_harness!(c07_t_co_dc_exp_n2g7_ab_pl_cert, n=2, words=1, unwind=6, Sem::CO, Enc::ExpCo, Kind::DC, Pres::Plain, cert=true, CERT, qs=[[0, 1]], fault=0, codes=[7]);
+static_harness!(c07_t_co_dc_exp_n2g0_bb_pl_cert, n=2, words=1, unwind=6, Sem::CO, Enc::ExpCo, Kind::DC, Pres::Plain, cert=true, CERT, qs=[[1, 1]], fault=0, codes=[0]);
+static_harness!(c07_t_st_dc_def_n2g8_ab_pl, n=2, words=1, unwind=6, Sem::ST, Enc::Default, Kind::DC, Pres::Plain, cert=false, ANSWER, qs=[[0, 1]], fault=0, codes=[8]);
+static_harness!(c07_t_st_ds_def_n2g8_ab_pl_cert, n=2, words=1, unwind=6, Sem::ST, Enc::Default, Kind::DS, Pres::Plain, cert=true, CERT, qs=[[0, 1]], fault=0, codes=[8]);
+static_harness!(c07_t_st_dc_def_n2g6_aa_pl, n=2, words=1, unwind=6, Sem::ST, Enc::Default, Kind::DC, Pres::Plain, cert=false, ANSWER, qs=[[0, 0]], fault=0, codes=[6]);
+static_harness!(c07_t_st_ds_def_n2g6_aa_pl_cert, n=2, words=1, unwind=6, Sem::ST, Enc::Default, Kind::DS, Pres::Plain, cert=true, CERT, qs=[[0, 0]], fault=0, codes=[6]);
+static_harness!(c07_t_st_dc_def_n2g14_ab_pl, n=2, words=1, unwind=6, Sem::ST, Enc::Default, Kind::DC, Pres::Plain, cert=false, ANSWER, qs=[[0, 1]], fault=0, codes=[14]);
+static_harness!(c07_t_st_ds_def_n2g14_ab_pl_cert, n=2, words=1, unwind=6, Sem::ST, Enc::Default, Kind::DS, Pres::Plain, cert=true, CERT, qs=[[0, 1]], fault=0, codes=[14]);
+static_harness!(c07_t_st_dc_def_n2g2_ab_pl, n=2, words=1, unwind=6, Sem::ST, Enc::Default, Kind::DC, Pres::Plain, cert=false, ANSWER, qs=[[0, 1]], fault=0, codes=[2]);
+static_harness!(c07_t_st_ds_def_n2g2_ab_pl_cert, n=2, words=1, unwind=6, Sem::ST, Enc::Default, Kind::DS, Pres::Plain, cert=true, CERT, qs=[[0, 1]], fault=0, codes=[2]);
+static_harness!(c07_t_st_dc_def_n3g8_ca_pl_cert, n=3, words=1, unwind=7, Sem::ST, Enc::Default, Kind::DC, Pres::Plain, cert=true, CERT, qs=[[2, 0]], fault=0, codes=[8]);
+static_harness!(c07_t_st_dc_def_n3g2_cb_pl_cert, n=3, words=1, unwind=7, Sem::ST, Enc::Default, Kind::DC, Pres::Plain, cert=true, CERT, qs=[[2, 1]], fault=0, codes=[2]);
+static_harness!(c07_t_st_dc_def_n3g42_ac_pl_cert, n=3, words=1, unwind=7, Sem::ST, Enc::Default, Kind::DC, Pres::Plain, cert=true, CERT, qs=[[0, 2]], fault=0, codes=[42]);
+static_harness!(c07_t_st_dc_def_n3g0_ac_pl_cert, n=3, words=1, unwind=7, Sem::ST, Enc::Default, Kind::DC, Pres::Plain, cert=true, CERT, qs=[[0, 2]], fault=0, codes=[0]);
+static_harness!(c07_t_st_dc_def_n3g34_bc_pl_cert, n=3, words=1, unwind=7, Sem::ST, Enc::Default, Kind::DC, Pres::Plain, cert=true, CERT, qs=[[1, 2]], fault=0, codes=[34]);
+static_harness!(c07_t_co_dc_aux_n3g0_ac_pl_cert, n=3, words=2, unwind=9, Sem::CO, Enc::AuxCo, Kind::DC, Pres::Plain, cert=true, CERT, qs=[[0, 2]], fault=0, codes=[0]);
+static_harness!(c07_t_co_dc_aux_n3g2_bc_pl_cert, n=3, words=2, unwind=9, Sem::CO, Enc::AuxCo, Kind::DC, Pres::Plain, cert=true, CERT, qs=[[1, 2]], fault=0, codes=[2]);
+static_harness!(c07_t_co_dc_aux_n3g42_bc_pl_cert, n=3, words=2, unwind=9, Sem::CO, Enc::AuxCo, Kind::DC, Pres::Plain, cert=true, CERT, qs=[[1, 2]], fault=0, codes=[42]);
+static_harness!(c16_q_st_dc_def_n2g2_a_pl, n=2, words=1, unwind=6, Sem::ST, Enc::Default, Kind::DC, Pres::Plain, cert=false, HEADER, qs=[[0]], fault=0, codes=[2]);
+static_harness!(c16_q_st_dc_def_n2g6_b_pl, n=2, words=1, unwind=6, Sem::ST, Enc::Default, Kind::DC, Pres::Plain, cert=false, HEADER, qs=[[1]], fault=0, codes=[6]);
+static_harness!(c16_q_st_dc_def_n2g0_ab_pl, n=2, words=1, unwind=6, Sem::ST, Enc::Default, Kind::DC, Pres::Plain, cert=false, HEADER, qs=[[0, 1]], fault=0, codes=[0]);
+static_harness!(c16_q_st_dc_def_n2g14_a_pl, n=2, words=1, unwind=6, Sem::ST, Enc::Default, Kind::DC, Pres::Plain, cert=false, HEADER, qs=[[0]], fault=0, codes=[14]);
+static_harness!(c16_q_co_dc_aux_n2g6_a_pl_cert, n=2, words=1, unwind=7, Sem::CO, Enc::AuxCo, Kind::DC, Pres::Plain, cert=true, HEADER, qs=[[0]], fault=0, codes=[6]);
+static_harness!(c16_q_co_dc_exp_n2g14_ab_pl_cert, n=2, words=1, unwind=6, Sem::CO, Enc::ExpCo, Kind::DC, Pres::Plain, cert=true, HEADER, qs=[[0, 1]], fault=0, codes=[14]);
+static_harness!(c16_q_st_ds_def_n2g6_ab_pl_cert, n=2, words=1, unwind=6, Sem::ST, Enc::Default, Kind::DS, Pres::Plain, cert=true, HEADER, qs=[[0, 1]], fault=0, codes=[6]);
+static_harness!(c16_q_st_se_def_n2g6_x_pl, n=2, words=1, unwind=6, Sem::ST, Enc::Default, Kind::SE, Pres::Plain, cert=false, HEADER, qs=[[]], fault=0, codes=[6]);
+static_harness!(c16_t_st_dc_def_n2g10_b_pl_cert, n=2, words=1, unwind=6, Sem::ST, Enc::Default, Kind::DC, Pres::Plain, cert=true, HEADER, qs=[[1]], fault=0, codes=[10]);
+static_harness!(c16_t_st_dc_def_n2g9_a_pl_cert, n=2, words=1, unwind=6, Sem::ST, Enc::Default, Kind::DC, Pres::Plain, cert=true, HEADER, qs=[[0]], fault=0, codes=[9]);
+static_harness!(c16_t_st_dc_def_n2g8_ba_pl_cert, n=2, words=1, unwind=6, Sem::ST, Enc::Default, Kind::DC, Pres::Plain, cert=true, HEADER, qs=[[1, 0]], fault=0, codes=[8]);
+static_harness!(c16_t_co_dc_hyb_n2g6_b_pl, n=2, words=1, unwind=6, Sem::CO, Enc::Hybrid, Kind::DC, Pres::Plain, cert=false, HEADER, qs=[[1]], fault=0, codes=[6]);
+static_harness!(c16_t_st_dc_def_n3g42_c_pl_cert, n=3, words=1, unwind=7, Sem::ST, Enc::Default, Kind::DC, Pres::Plain, cert=true, HEADER, qs=[[2]], fault=0, codes=[42]);
+static_harness!(c16_t_st_dc_def_n3g8_ac_pl, n=3, words=1, unwind=7, Sem::ST, Enc::Default, Kind::DC, Pres::Plain, cert=false, HEADER, qs=[[0, 2]], fault=0, codes=[8]);
+static_harness!(c17_q_st_dc_def_n2g6_a_pl_cert_f2, n=2, words=1, unwind=6, Sem::ST, Enc::Default, Kind::DC, Pres::Plain, cert=true, FAULT, qs=[[0]], fault=2, codes=[6]);
+static_harness!(c17_q_st_dc_def_n2g0_ab_pl_f3, n=2, words=1, unwind=6, Sem::ST, Enc::Default, Kind::DC, Pres::Plain, cert=false, FAULT, qs=[[0, 1]], fault=3, codes=[0]);
+static_harness!(c17_q_co_dc_aux_n2g2_b_pl_f2, n=2, words=1, unwind=7, Sem::CO, Enc::AuxCo, Kind::DC, Pres::Plain, cert=false, FAULT, qs=[[1]], fault=2, codes=[2]);
+static_harness!(c17_q_st_se_def_n2g6_x_pl_f2, n=2, words=1, unwind=6, Sem::ST, Enc::Default, Kind::SE, Pres::Plain, cert=false, FAULT, qs=[[]], fault=2, codes=[6]);
+static_harness!(c17_q_st_ds_def_n2g0_a_pl_cert_f3, n=2, words=1, unwind=6, Sem::ST, Enc::Default, Kind::DS, Pres::Plain, cert=true, FAULT, qs=[[0]], fault=3, codes=[0]);
+static_harness!(c17_t_co_dc_exp_n2g14_a_pl_cert_f2, n=2, words=1, unwind=6, Sem::CO, Enc::ExpCo, Kind::DC, Pres::Plain, cert=true, FAULT, qs=[[0]], fault=2, codes=[14]);
+static_harness!(c17_t_st_ds_def_n2g6_b_pl_f2, n=2, words=1, unwind=6, Sem::ST, Enc::Default, Kind::DS, Pres::Plain, cert=false, FAULT, qs=[[1]], fault=2, codes=[6]);
+static_harness!(c17_t_st_se_def_n2g0_x_pl_f3, n=2, words=1, unwind=6, Sem::ST, Enc::Default, Kind::SE, Pres::Plain, cert=false, FAULT, qs=[[]], fault=3, codes=[0]);
+static_harness!(c18_q_st_dc_def_n2g0_ab_pl_cert, n=2, words=1, unwind=6, Sem::ST, Enc::Default, Kind::DC, Pres::Plain, cert=true, CALLS, qs=[[0, 1]], fault=0, codes=[0]);
+static_harness!(c18_q_st_dc_def_n2g6_a_pl_cert, n=2, words=1, unwind=6, Sem::ST, Enc::Default, Kind::DC, Pres::Plain, cert=true, CALLS, qs=[[0]], fault=0, codes=[6]);
+static_harness!(c18_q_st_dc_def_n2g10_b_pl_cert, n=2, words=1, unwind=6, Sem::ST, Enc::Default, Kind::DC, Pres::Plain, cert=true, CALLS, qs=[[1]], fault=0, codes=[10]);
+static_harness!(c18_q_co_dc_aux_n2g6_a_pl_cert, n=2, words=1, unwind=7, Sem::CO, Enc::AuxCo, Kind::DC, Pres::Plain, cert=true, CALLS, qs=[[0]], fault=0, codes=[6]);
+static_harness!(c18_q_co_dc_aux_n2g14_ab_pl_cert, n=2, words=1, unwind=7, Sem::CO, Enc::AuxCo, Kind::DC, Pres::Plain, cert=true, CALLS, qs=[[0, 1]], fault=0, codes=[14]);
+static_harness!(c18_q_st_ds_def_n2g2_b_pl, n=2, words=1, unwind=6, Sem::ST, Enc::Default, Kind::DS, Pres::Plain, cert=false, CALLS, qs=[[1]], fault=0, codes=[2]);
+static_harness!(c18_q_st_se_def_n2g0_x_pl, n=2, words=1, unwind=6, Sem::ST, Enc::Default, Kind::SE, Pres::Plain, cert=false, CALLS, qs=[[]], fault=0, codes=[0]);
+static_harness!(c18_t_st_ds_def_n2g0_ab_pl_cert, n=2, words=1, unwind=6, Sem::ST, Enc::Default, Kind::DS, Pres::Plain, cert=true, CALLS, qs=[[0, 1]], fault=0, codes=[0]);
+static_harness!(c18_t_co_dc_exp_n2g0_ab_pl, n=2, words=1, unwind=6, Sem::CO, Enc::ExpCo, Kind::DC, Pres::Plain, cert=false, CALLS, qs=[[0, 1]], fault=0, codes=[0]);
+static_harness!(c18_t_st_dc_def_n3g0_ac_pl_cert, n=3, words=1, unwind=7, Sem::ST, Enc::Default, Kind::DC, Pres::Plain, cert=true, CALLS, qs=[[0, 2]], fault=0, codes=[0]);
